@@ -20,6 +20,24 @@ _np.seterr(all="ignore")
 from . import core, tlc  # noqa
 
 
+class Watchdog(Exception):
+    pass
+
+
+# no verdict within this many seconds => the run is reported as a violation ("a call into the library does not return").
+# Ten to thirty times the wall time of the slowest check of the tier on the unchanged tree (quick <= 1.5 min, thorough <= 27 min).
+LIMITS = {"quick": int(os.environ.get("VERIF_QUICK_LIMIT", "2400")), "thorough": int(os.environ.get("VERIF_THOROUGH_LIMIT", "21600"))}
+
+
+def _arm(seconds):
+    import signal
+
+    def on_alarm(signum, frame):
+        raise Watchdog()
+    signal.signal(signal.SIGALRM, on_alarm)
+    signal.alarm(seconds)
+
+
 def main(argv):
     if len(argv) < 2:
         print(__doc__)
@@ -44,7 +62,19 @@ def main(argv):
             print(__doc__)
             return 2
         chk = core.Check(pid, tier, seed)
+        _arm(LIMITS[tier])
         mod.run(chk)
+        import signal
+        signal.alarm(0)
+        return chk.finish()
+    except Watchdog:
+        # the unchanged tree answers in a small fraction of the limit: some call into the library no longer returns
+        import multiprocessing as _mp
+        import faulthandler
+        for c in _mp.active_children():
+            c.terminate()
+        chk.fail("%s|no-verdict-within-%d-s|a-call-into-the-library-does-not-return" % (pid, LIMITS[tier]),
+                 {"tier": tier, "limit_s": LIMITS[tier], "note": "the check was interrupted by its watchdog; partial results are reported with it"})
         return chk.finish()
     except tlc.TLCError as e:
         print("MACHINERY FAILURE (TLC): %s" % str(e)[-3000:])
